@@ -13,6 +13,9 @@ structure DrawState where
   lines : List Line := []
   moveCursor : Bool := false
   alignment : Alignment := .top
+  /-- F33 repair: the last frame was cut off at the terminal height and no filler was written, so the
+  cursor sits behind the last bar row painted -/
+  unparked : Bool := false
 deriving Repr
 
 /-- `LineType::wrapped_height`: `max(1, ceil(cols / W))` (`W ≥ 1`) -/
@@ -38,10 +41,11 @@ structure Fixes where
   fstale : Bool := false   -- F26/F27: immediate reap only while the painted frame is in sync
   f31 : Bool := false      -- `MultiProgress::remove` repaints without the removed bar
   fkept : Bool := false    -- F32: only rows that were painted are kept (and counted) as zombie rows
+  fpark : Bool := false    -- F33: a frame after a cut-off frame whose rows were all kept starts on a fresh row
 deriving Repr, DecidableEq
 
 def Fixes.none : Fixes := {}
-def Fixes.all : Fixes := { f4 := true, f23 := true, f22 := true, fzomb := true, fstale := true, f31 := true, fkept := true }
+def Fixes.all : Fixes := { f4 := true, f23 := true, f22 := true, fzomb := true, fstale := true, f31 := true, fkept := true, fpark := true }
 
 /-- the repairs the repository contains now (`fix:` commits); the correspondence harness runs the model
 with exactly this value (`FX=current`), and the property theorems are stated for it -/
@@ -49,19 +53,19 @@ def Fixes.current : Fixes := Fixes.all
 
 /-- the painting loop: returns the calls made, `real_height`, and for the last line written the
 pair (number of lines written, filler needed on it) -/
-def paintLoop (fx : Fixes) (W H total : Nat) (nothingCleared : Bool) : Nat → Nat → List Line → List TOp × Nat × Option (Nat × Nat)
+def paintLoop (fx : Fixes) (W H total : Nat) (nothingCleared : Bool) (unparked : Bool) : Nat → Nat → List Line → List TOp × Nat × Option (Nat × Nat)
   | _, real, [] => ([], real, none)
   | idx, real, l :: ls =>
     let h := wrappedHeight W l
     if l.isBar && decide (real + h > H) then ([], real, none)
     else
       let real' := if l.isBar then real + h else real
-      let pre := if idx ≠ 0 then [TOp.writeLine []] else []
+      let pre := if idx ≠ 0 then [TOp.writeLine []] else if fx.fpark && nothingCleared && unparked then [TOp.writeLine []] else []
       let blank := fx.f4 && idx == 0 && nothingCleared && l.cols == 0 && decide (total > 1)
       let used := if blank then 1 else l.cols
       let extra := if blank then [TOp.writeStr [space]] else []
       let fill := if !fx.f23 && idx + 1 == total then [TOp.writeStr (List.replicate (h * W - l.cols) space)] else []
-      let rest := paintLoop fx W H total nothingCleared (idx + 1) real' ls
+      let rest := paintLoop fx W H total nothingCleared unparked (idx + 1) real' ls
       let last := match rest.2.2 with
         | some x => some x
         | none => some (idx + 1, h * W - used)
@@ -73,7 +77,7 @@ def drawToTerm (fx : Fixes) (ds : DrawState) (W H n : Nat) : List TOp × Nat :=
   let full := visualLineCount W ds.lines
   let shift := if ds.alignment = .bottom ∧ full < n then n - full else 0
   let shiftOps := List.replicate shift (TOp.writeLine [])
-  let p := paintLoop fx W H ds.lines.length (n == 0) 0 0 ds.lines
+  let p := paintLoop fx W H ds.lines.length (n == 0) ds.unparked 0 0 ds.lines
   let real := p.2.1
   let tail := if fx.f23 then
       match p.2.2 with
@@ -86,6 +90,20 @@ def drawToTerm (fx : Fixes) (ds : DrawState) (W H n : Nat) : List TOp × Nat :=
     | none => false
   let count := if fx.f22 && textDrawn then real else real + shift
   (head ++ shiftOps ++ p.1 ++ tail ++ [TOp.flush], count)
+
+/-- the `cursor_unparked` flag after one `draw_to_term` (F33 repair) -/
+def unparkedAfter (fx : Fixes) (ds : DrawState) (W H n : Nat) : Bool :=
+  if !fx.fpark then ds.unparked else
+  let full := visualLineCount W ds.lines
+  let shift := if ds.alignment = .bottom ∧ full < n then n - full else 0
+  let p := paintLoop fx W H ds.lines.length (n == 0) ds.unparked 0 0 ds.lines
+  match p.2.2 with
+  | some (written, _) => !(written == ds.lines.length || p.2.1 + shift == 0)
+  | none => if n == 0 then ds.unparked else false
+
+/-- the draw state as `draw_to_term` leaves it -/
+def DrawState.after (ds : DrawState) (fx : Fixes) (W H n : Nat) : DrawState :=
+  { ds with unparked := unparkedAfter fx ds W H n }
 
 /-- A terminal-like draw target (`TargetKind::TermLike`) -/
 structure TermTarget where
